@@ -118,6 +118,15 @@ def build(P, payload):
         off = a + 1 - b
         main = main[: a2 + off] + [inc_line(names[2], r, P.stmts[a2].depth)] + main[b2 + off:]
         second = (a2, b2)
+    if mode == "resolve" and len(main) > 1 and r.random() < 0.3:
+        # an include file that delivers nothing (empty, or only a comment while comments are ignored) is transparent too
+        void = "void_%d.inc" % r.randint(1, 3)
+        files[void] = "" if not payload["ic"] or r.random() < 0.5 else r.choice(["! nothing here\n", "\n", "!\n! two\n"])
+        k = r.randrange(1, len(main))
+        main = main[:k] + [inc_line(void, r, 1)] + main[k:]
+        if r.random() < 0.3:
+            # ... also as the last line of another include file
+            files[names[0]] += inc_line(void, r, 0) + "\n"
     return {"main": "\n".join(main) + "\n", "files": files, "a": a, "b": b, "names": names, "nested": nested,
             "second": second, "positions": positions}
 
